@@ -220,6 +220,10 @@ class Statement(object):
         raw_post_byte = self.code_pkg.post_byte.int
         max_size += 2
         min_size += 2
+        if not positive_range:
+            # A backwards displacement also spans this instruction itself
+            max_size += self.code_pkg.size - 1
+            min_size += self.code_pkg.size - 1
 
         if positive_range:
             if min_size <= 127 and max_size <= 127:
